@@ -15,12 +15,15 @@ import (
 
 	"pgregory.net/rapid"
 
+	abci "github.com/cometbft/cometbft/abci/types"
+
 	"cosmossdk.io/math"
 
 	sdk "github.com/cosmos/cosmos-sdk/types"
 	authtypes "github.com/cosmos/cosmos-sdk/x/auth/types"
 	banktypes "github.com/cosmos/cosmos-sdk/x/bank/types"
 	distrtypes "github.com/cosmos/cosmos-sdk/x/distribution/types"
+	slashingtypes "github.com/cosmos/cosmos-sdk/x/slashing/types"
 	stakingtypes "github.com/cosmos/cosmos-sdk/x/staking/types"
 
 	"github.com/bandprotocol/chain/v3/pkg/tss"
@@ -32,6 +35,8 @@ import (
 	"verif/harness/pbt"
 	"verif/harness/ref"
 	"verif/harness/sim"
+
+	band "github.com/bandprotocol/chain/v3/app"
 )
 
 func TestC14(t *testing.T) { pbt.Check(t, "C14", genC14, runC14) }
@@ -70,6 +75,7 @@ type c14Block struct {
 	Ops      []c14MemberOp `json:"ops,omitempty"`
 	Absent   []bool        `json:"absent,omitempty"` // per validator: flagged absent in the last commit of this block
 	Proposer int           `json:"proposer"`
+	Jail     int           `json:"jail,omitempty"` // k > 0: double-sign evidence against validator (k-1) mod n is delivered with this block (first one only)
 }
 
 type c14Case struct {
@@ -82,6 +88,7 @@ type c14Case struct {
 	Extras     []c14Extra  `json:"extras,omitempty"`
 	NoCurGroup bool        `json:"no_current_group,omitempty"` // tss group 1 exists but bandtss has no current group
 	MaxGS      uint64      `json:"max_group_size,omitempty"`   // tss MaxGroupSize as governance left it (0 = default 20); it only limits NEW groups
+	NoSlash    bool        `json:"no_slash,omitempty"`         // SlashFractionDoubleSign = 0: the evidence jails and tombstones but burns nothing
 	Blocks     []c14Block  `json:"blocks"`
 }
 
@@ -156,7 +163,17 @@ func genC14(rt *rapid.T) c14Case {
 	}
 
 	nb := 1 + gen.Pick(rt, "nblocks", 1, 4, 4, 2, 1) // block 2 never has oracle-active validators, so usually >= 2 blocks
-	actMode := gen.Pick(rt, "actmode", 6, 2, 1)      // most / all / none
+	// a validator is jailed (double-sign evidence) in the middle of the case: it stays in the commits of the next two
+	// blocks (validator-set updates are delayed), oracle-active and with its power
+	jailAt := -1
+	if n >= 2 && gen.Chance(rt, "jail", 1, 3) {
+		if nb < 3 {
+			nb = gen.Range(rt, "nblocksj", 3, 5)
+		}
+		jailAt = gen.Range(rt, "jailat", 1, nb-2)
+		c.NoSlash = gen.Chance(rt, "noslash", 1, 2)
+	}
+	actMode := gen.Pick(rt, "actmode", 6, 2, 1) // most / all / none
 	for b := 0; b < nb; b++ {
 		blk := c14Block{Proposer: gen.Uniform(rt, "proposer", n)}
 		if b < nb-1 || gen.Chance(rt, "lastfee", 1, 3) {
@@ -179,6 +196,13 @@ func genC14(rt *rapid.T) c14Case {
 		if gen.Chance(rt, "someabsent", 1, 3) {
 			for i := 0; i < n; i++ {
 				blk.Absent = append(blk.Absent, gen.Chance(rt, "absent", 1, 3))
+			}
+		}
+		if b == jailAt {
+			blk.Jail = 1 + gen.Uniform(rt, "jailval", n)
+			// mostly a validator that sent its oracle activation in the first block
+			if act := c.Blocks[0].Activate; len(act) > 0 && gen.Chance(rt, "jailactive", 5, 6) {
+				blk.Jail = 1 + act[gen.Uniform(rt, "jailact", len(act))]
 			}
 		}
 		c.Blocks = append(c.Blocks, blk)
@@ -320,12 +344,13 @@ func truncDec(a ref.Amounts) ref.Amounts {
 // ---- run ---------------------------------------------------------------------------------------------
 
 // module addresses as bech32; filled in by runC14 once the "band" prefix is configured (sim.NewAccount does that).
-var feeCollectorAddr, distrAddr, bondedAddr string
+var feeCollectorAddr, distrAddr, bondedAddr, notBondedAddr string
 
 func initAddrs() {
 	feeCollectorAddr = authtypes.NewModuleAddress(authtypes.FeeCollectorName).String()
 	distrAddr = authtypes.NewModuleAddress(distrtypes.ModuleName).String()
 	bondedAddr = authtypes.NewModuleAddress(stakingtypes.BondedPoolName).String()
+	notBondedAddr = authtypes.NewModuleAddress(stakingtypes.NotBondedPoolName).String()
 }
 
 // model is what the harness predicts about who is eligible.
@@ -346,6 +371,9 @@ type blockInput struct {
 	proposer  int
 	events    []transferEv // begin-block transfers fee collector -> distribution (nil at height 1: not observable)
 	hasEvents bool
+	powers    []int64 // voting power per validator in the last commit handed to this block (0 = not in the commit)
+	evidence  bool    // this block carries double-sign evidence: the slashed stake is burned from the staking pools
+	jailedIn  int     // validator that is jailed in staking but still in this block's last commit (-1: none)
 }
 
 type transferEv struct{ amount string }
@@ -449,6 +477,14 @@ func runC14(c c14Case) *pbt.Verdict {
 		GenesisTime: genesisTime, NumAccounts: nu, Validators: vals, Balance: toSDK(balance),
 		Oracle: &op, Bandtss: &bp, TSSGenesis: tg, BandtssGen: bg, MintOff: true, CommunityTax: &taxDec,
 	}
+	if c.NoSlash {
+		cfg.ExtraGenesis = func(gs band.GenesisState, app *band.BandApp) {
+			var sg slashingtypes.GenesisState
+			app.AppCodec().MustUnmarshalJSON(gs[slashingtypes.ModuleName], &sg)
+			sg.Params.SlashFractionDoubleSign = math.LegacyZeroDec()
+			gs[slashingtypes.ModuleName] = app.AppCodec().MustMarshalJSON(&sg)
+		}
+	}
 	if c.MaxGS > 0 {
 		// the limit applies to group creation only: an existing (larger) group keeps all its members
 		tp := tsstypes.DefaultParams()
@@ -509,12 +545,13 @@ func runC14(c c14Case) *pbt.Verdict {
 		v.Failf("harness", "snapshot: %v", err)
 		return v
 	}
-	ck.checkBlock(blockInput{height: 1, pre: pre, post: post, feesPaid: ref.Amounts{}, payer: ch.Users[payerIdx].Addr.String(), proposer: 0})
+	ck.checkBlock(blockInput{height: 1, pre: pre, post: post, feesPaid: ref.Amounts{}, payer: ch.Users[payerIdx].Addr.String(), proposer: 0, powers: c.Powers, jailedIn: -1})
 	if v.Violation != "" {
 		return v
 	}
 
 	// ---- generated blocks ----------------------------------------------------------------------------
+	jailed, jailH := -1, int64(0) // validator under evidence and the height of the block that carried it
 	for bi, blk := range c.Blocks {
 		pre = post
 		type ptx struct {
@@ -588,6 +625,30 @@ func runC14(c c14Case) *pbt.Verdict {
 			ch.Absent[i] = i < len(blk.Absent) && blk.Absent[i]
 		}
 		ch.Proposer = ((blk.Proposer % n) + n) % n
+		evidence := false
+		if blk.Jail > 0 && jailed < 0 && n >= 2 {
+			// what CometBFT hands over when it has seen two votes of one validator for the last height
+			jailed, jailH, evidence = (blk.Jail-1)%n, ch.Height+1, true
+			ch.Misbehavior = append(ch.Misbehavior, abci.Misbehavior{Type: abci.MisbehaviorType_DUPLICATE_VOTE,
+				Validator: abci.Validator{Address: ch.ConsKeys[jailed].PubKey().Address(), Power: c.Powers[jailed]},
+				Height:    ch.Height, Time: ch.Time, TotalVotingPower: 100})
+		}
+		// The validator set changes two blocks after the block that jailed the validator: the commits handed to blocks
+		// jailH+1 and jailH+2 still carry it with its power, from jailH+3 on it is gone (sim builds the commit from the
+		// configured validators; power 0 = not in the commit) and cannot propose.
+		powers := append([]int64(nil), c.Powers...)
+		jailedIn := -1
+		if jailed >= 0 && ch.Height+1 > jailH {
+			if ch.Height+1 >= jailH+3 {
+				powers[jailed] = 0
+				ch.Cfg.Validators[jailed].Tokens = 0
+				if ch.Proposer == jailed {
+					ch.Proposer = (jailed + 1) % n
+				}
+			} else {
+				jailedIn = jailed
+			}
+		}
 
 		res, err := ch.Block(txs, 3*time.Second)
 		if err != nil {
@@ -622,8 +683,17 @@ func runC14(c c14Case) *pbt.Verdict {
 				st.absentActive++
 			}
 		}
+		if evidence {
+			// harness sanity: the evidence was accepted
+			sv, serr := ch.App.StakingKeeper.GetValidator(ch.Ctx(), ch.Vals[jailed].Val)
+			if serr != nil || !sv.IsJailed() {
+				v.Failf("harness", "block %d: evidence against validator %d did not jail it (%v)", res.Height, jailed, serr)
+				return v
+			}
+			st.classes["validator-jailed-by-evidence"] = true
+		}
 		ck.checkBlock(blockInput{height: res.Height, pre: pre, post: post, feesPaid: fees, payer: ch.Users[payerIdx].Addr.String(),
-			proposer: ch.Proposer, events: evs, hasEvents: true})
+			proposer: ch.Proposer, events: evs, hasEvents: true, powers: powers, evidence: evidence, jailedIn: jailedIn})
 		if v.Violation != "" {
 			return v
 		}
@@ -661,6 +731,8 @@ func runC14(c c14Case) *pbt.Verdict {
 	v.Count("ineligible_checked", st.ineligibleChecked)
 	v.Count("eligible_checked", st.eligibleChecked)
 	v.Count("inactive_validators_checked", st.inactiveValsChecked)
+	v.Count("jailed_active_in_commit_blocks", st.jailedActiveInCommit)
+	v.Count("jailed_active_in_commit_reward_due_blocks", st.jailedActiveDue)
 	if os.Getenv("C14_DEBUG") != "" {
 		fmt.Printf("C14 case ok: blocks=%d oracleRan=%d tssRan=%d nontrivial=%v\n", st.blocks, st.oracleRan, st.tssRan, st.nontrivial)
 	}
@@ -700,6 +772,7 @@ type caseStats struct {
 	inactiveProposerDust, idealDiffer, absentActive           int64
 	otherChanged, inapplicable                                int64
 	ineligibleChecked, eligibleChecked, inactiveValsChecked   int64
+	jailedActiveInCommit, jailedActiveDue                     int64
 }
 
 type checker struct {
@@ -756,7 +829,13 @@ func (k *checker) checkBlock(in blockInput) {
 
 	// ---------- reference: the three stages in begin-block order ----------
 	pool := pre.balOf(feeCollectorAddr).Clone()
-	os1 := ref.RewardOracle(pool, c.OraclePct, k.tax, c.Powers, k.md.oracleActive, in.proposer)
+	powers := in.powers
+	if len(powers) != n {
+		powers = c.Powers
+	}
+	// the property's rule: every oracle-active validator of the last commit shares the oracle reward by its power in
+	// that commit (whatever staking says about it meanwhile)
+	os1 := ref.RewardOracle(pool, c.OraclePct, k.tax, powers, k.md.oracleActive, in.proposer)
 	pool2 := pool.Clone()
 	if os1.Ran {
 		pool2.SubFrom(os1.Share)
@@ -777,7 +856,7 @@ func (k *checker) checkBlock(in blockInput) {
 		ds.PerVal[i] = ref.Amounts{}
 	}
 	if in.height > 1 { // the SDK distribution module does not allocate in the first block
-		ds = ref.RewardDistr(pool3, k.tax, c.Powers)
+		ds = ref.RewardDistr(pool3, k.tax, powers)
 	}
 
 	// ---------- statistics / classes ----------
@@ -793,6 +872,16 @@ func (k *checker) checkBlock(in blockInput) {
 		if a {
 			nAct++
 		}
+	}
+	if j := in.jailedIn; j >= 0 && j < n && powers[j] > 0 && k.md.oracleActive[j] {
+		st.jailedActiveInCommit++
+		st.classes["jailed-but-still-in-commit-and-active"] = true
+		if os1.Ran && !os1.PerVal[j].IsZero() {
+			st.jailedActiveDue++
+			st.classes["jailed-but-still-in-commit-and-active:oracle-reward-due"] = true
+		}
+	} else if j >= 0 && j < n {
+		st.classes["jailed-but-still-in-commit:not-oracle-active"] = true
 	}
 	if os1.Ran {
 		st.oracleRan++
@@ -841,17 +930,39 @@ func (k *checker) checkBlock(in blockInput) {
 	st.classes[fmt.Sprintf("pool-denoms:%d", nd)] = true
 
 	// ---------- 1. total supply unchanged ----------
-	if !pre.supply.Equal(post.supply) {
-		v.Failf("C14/supply", "%s: total supply changed: before %s after %s", where, show(pre.supply), show(post.supply))
+	// A block carrying double-sign evidence takes the slashed stake out of the staking pools. That is not allocation;
+	// conservation still has to hold for it: the stake is either burned (the supply drops by exactly that much) or
+	// credited somewhere else - this chain's bank keeper turns burns into community-pool funding - and nothing else
+	// may leave or enter the supply.
+	slashed, burned := ref.Amounts{}, ref.Amounts{}
+	if in.evidence {
+		pools := delta(post.balOf(bondedAddr), pre.balOf(bondedAddr)).AddTo(delta(post.balOf(notBondedAddr), pre.balOf(notBondedAddr)))
+		slashed = ref.Amounts{}.SubFrom(pools)
+		for _, d := range slashed.Denoms() {
+			if slashed[d].Sign() < 0 {
+				v.Failf("C14/supply", "%s: the staking pools grew by %s in a block that slashes", where, show(pools))
+				return
+			}
+		}
+		if !slashed.IsZero() {
+			st.classes["evidence-block-slashes-stake"] = true
+			if !pre.supply.Equal(post.supply) {
+				burned = slashed
+			}
+		}
+	}
+	if !pre.supply.Clone().SubFrom(burned).Equal(post.supply) {
+		v.Failf("C14/supply", "%s: total supply changed: before %s after %s (stake slashed in this block: %s)", where, show(pre.supply), show(post.supply), show(slashed))
 		return
 	}
+	toPool := slashed.Clone().SubFrom(burned) // slashed stake that stays in the supply: community pool
 	// ---------- 2. all balance changes sum to zero ----------
 	sum := ref.Amounts{}
 	for _, a := range sortedKeys(pre.bal, post.bal) {
 		sum.AddTo(delta(post.balOf(a), pre.balOf(a)))
 	}
-	if !sum.IsZero() {
-		v.Failf("C14/sum-deltas", "%s: balance changes sum to %s, expected zero", where, show(sum))
+	if !sum.AddTo(burned).IsZero() {
+		v.Failf("C14/sum-deltas", "%s: balance changes (plus burned stake %s) sum to %s, expected zero", where, show(burned), show(sum))
 		return
 	}
 	// ---------- 3. the distribution module account backs its books ----------
@@ -947,7 +1058,7 @@ func (k *checker) checkBlock(in blockInput) {
 				oracleWant = os1.PerVal[i]
 			}
 			v.Failf(sig, "%s: validator %d (power %d, oracle-active %v, proposer %v): outstanding rewards changed by %s, expected %s = oracle stage %s + distribution stage %s (x1e-18; pool %s, oracle share %s, tax %s)",
-				where, i, c.Powers[i], k.md.oracleActive[i], i == in.proposer, show(got), show(want), show(oracleWant), show(ds.PerVal[i]), show(pool), show(os1.Share), c.Tax)
+				where, i, powers[i], k.md.oracleActive[i], i == in.proposer, show(got), show(want), show(oracleWant), show(ds.PerVal[i]), show(pool), show(os1.Share), c.Tax)
 			return
 		}
 	}
@@ -978,7 +1089,7 @@ func (k *checker) checkBlock(in blockInput) {
 	}
 
 	// ---------- 7. community pool ----------
-	wantPool := ds.Community.Clone()
+	wantPool := ds.Community.Clone().AddTo(toPool.Scaled())
 	if os1.Ran {
 		wantPool.AddTo(os1.Community.Scaled())
 	}
